@@ -12,7 +12,8 @@ from vk.core import Inst, REPO, BUILD, HARNESS
 TYPES = {"dna": (1, 0), "internal": (1, 1), "rna": (1, 2), "protein": (0, 3), "divergent": (0, 4)}
 LIB_SRCS = ["lib/src/aln_param.c", "lib/src/aln_setup.c", "lib/src/aln_seqseq.c", "lib/src/aln_seqprofile.c",
             "lib/src/aln_profileprofile.c", "lib/src/aln_mem.c"]
-FUNCS = ["aln_runner_serial", "aln_continue", "aln_seqseq_foward", "aln_seqseq_backward", "aln_seqseq_meetup", "init_alnmem", "aln_param_init"]
+FUNCS = ["aln_runner_serial", "aln_continue", "aln_seqseq_foward", "aln_seqseq_backward", "aln_seqseq_meetup", "aln_seqprofile_foward", "aln_seqprofile_backward", "aln_seqprofile_meetup",
+         "aln_profileprofile_* (thorough attempts)", "make_profile_n", "update_n", "set_gap_penalties_n", "init_alnmem", "aln_param_init"]
 
 
 def item_c(it):
@@ -32,13 +33,16 @@ def plan_h(steps, known, blocks):
 
 
 class Config:
-    def __init__(self, prop, tname, la, lb, nlet=4, equal=False, pen=None, solver="minisat", timeout=600, mem_gb=6):
+    def __init__(self, prop, tname, la, lb, nlet=4, equal=False, pen=None, solver="minisat", timeout=600, mem_gb=6, kernel=1, ka=1, kb=1):
         self.prop, self.tname, self.la, self.lb, self.nlet, self.equal, self.pen = prop, tname, la, lb, nlet, equal, pen
         self.solver, self.timeout, self.mem_gb = solver, timeout, mem_gb
-        self.name = "split_%s_%dx%d%s%s" % (tname, la, lb, "_eq" if equal else "", "_pen" if pen else "")
+        self.kernel, self.ka, self.kb = kernel, ka, kb
+        self.name = "split_%s%s_%dx%d%s%s" % ({1: "", 2: "sp%d_" % ka, 3: "pp%d%d_" % (ka, kb)}[kernel], tname, la, lb, "_eq" if equal else "", "_pen" if pen else "")
         bt, ty = TYPES[tname]
         self.defs = {"VK_BIOTYPE": bt, "VK_TYPE": ty, "VK_LA": la, "VK_LB": lb, "VK_NLET": nlet, "VK_WL_MAX": 4 * la + 4, "NOHAVE_AVX2": None,
                      "VK_NB": la + lb, "VK_NI": 12, "VK_NF": 1}
+        if kernel != 1:
+            self.defs.update({"VK_KERNEL": kernel, "VK_KA": ka, "VK_KB": kb})
         if equal:
             self.defs["VK_EQUAL"] = None
         if pen:
@@ -86,7 +90,7 @@ class Config:
         r = core.sh(cmd)
         if r.returncode != 0:
             return {"status": "error", "text": r.stdout[-1500:]}
-        unw = max(self.lb + 3, 4 * self.la + 6, 25)
+        unw = max(self.lb + 3, 4 * self.la + 6, 25) if self.kernel == 1 else 66
         c = ["cbmc", gb, "--verbosity", "9", "--unwinding-assertions", "--drop-unused-functions", "--no-malloc-may-fail", "--unwind", str(unw)]
         if self.solver == "kissat":
             c += ["--external-sat-solver", "kissat"]
